@@ -150,7 +150,7 @@ func HasData(dir string) (bool, error) {
 // RecoverNode is used to manually force a new configuration, in the event that
 // quorum cannot be restored. This borrows heavily from RecoverCluster functionality
 // of the Hashicorp Raft library, but has been customized for rqlite use.
-func RecoverNode(dataDir string, extensions []string, logger *log.Logger, logs raft.LogStore,
+func RecoverNode(dataDir string, extensions []string, fkConstraints bool, logger *log.Logger, logs raft.LogStore,
 	stable *rlog.Log, snaps raft.SnapshotStore, tn raft.Transport, conf raft.Configuration) error {
 	logPrefix := logger.Prefix()
 	logger.SetPrefix(fmt.Sprintf("%s[recovery] ", logPrefix))
@@ -208,7 +208,9 @@ func RecoverNode(dataDir string, extensions []string, logger *log.Logger, logs r
 		drv = sql.NewDriver(random.StringPattern("rqlite-extended-recover-xxxx-xxxx-xxxx"),
 			extensions, sql.CnkOnCloseModeDisabled)
 	}
-	db, err := sql.OpenSwappable(tmpDBPath, drv, false, true, 0)
+	// Replay with the same foreign key setting the node runs with, otherwise statements
+	// such as a cascading delete have a different effect than they had when first applied.
+	db, err := sql.OpenSwappable(tmpDBPath, drv, fkConstraints, true, 0)
 	if err != nil {
 		return fmt.Errorf("failed to open temporary database: %s", err)
 	}
